@@ -277,6 +277,23 @@ def run(tier, seed, ck: Check):
         v = drift[0]
         ck.notes["converter_model_drift_example"] = {"input": ["".join(l) for l in byid[v["id"]]["lines"]], "line": v["bad"],
                                                       "model": "".join(v["modelAt"]), "observed": "".join(v["obsAt"])}
+    # the trace spec is bound to what was recorded: one corrupted field -> that run rejected
+    okruns = {v["id"] for v in vs if not v["bad"]}
+    good = [r_ for r_ in sample if r_["id"] in okruns and r_["conv"] and any(r_["conv"])]
+    corrupted = []
+    for j, r_ in enumerate(good[:: max(1, len(good) // 20)][:20]):
+        r2 = json.loads(json.dumps(r_)); r2["id"] = j
+        k_ = max(range(len(r2["conv"])), key=lambda t: len(r2["conv"][t]))
+        if j % 2 == 0:
+            r2["conv"][k_] = r2["conv"][k_] + list(" &")                # a continuation mark that the converter did not write
+        else:
+            r2["conv"] = r2["conv"][:k_] + r2["conv"][k_ + 1:]            # one converted line lost
+        corrupted.append(r2)
+    if corrupted:
+        cv = validate_conv(corrupted, fdev)
+        if [v["id"] for v in cv if not v["bad"]]:
+            raise tlc.TLCFailure(f"FixedForm_Trace accepted corrupted runs {[v['id'] for v in cv if not v['bad']]}: the trace spec does not bind")
+        ck.coverage["corrupted_traces_rejected"] = len(cv)
     # pairs: whole programs in both forms
     progs = corpus()
     nseeds = 40 if big else 6
